@@ -129,7 +129,7 @@ class _Srv(apps.RecServer):
             ctx['ssessions'].pop()
             ctx['sftp_sessions'] = ctx.get('sftp_sessions', 0) + 1
             from asyncssh.stream import SSHServerStreamSession
-            return SSHServerStreamSession(None, asyncssh.SFTPServer)
+            return SSHServerStreamSession(None, asyncssh.SFTPServer, 3)
         sess.behaviour = beh
         if beh == 'slow_open':
             async def later():
